@@ -97,6 +97,48 @@ def gen_prog(rng, nvars, nops, queries=True, cfg="a1v1", raw_node=False):
     return "PROG " + cfg, lines
 
 
+def gen_prog_wide(rng, nvars, cfg="a1v1", memo=False):
+    """diagrams over 20..62 variables whose two children differ widely in depth: conjunction / disjunction / mixed
+    chains (one child is a terminal, the other a chain of up to 61 further variables), a few operations between such
+    chains, then the counting queries on every result.  Small enough numbers for exact usize arithmetic (depth < 63)."""
+    lines = []
+    n = [0]
+
+    def emit(l):
+        lines.append(l)
+        if not l.startswith("q"):
+            n[0] += 1
+            return n[0] - 1
+        return None
+
+    var = [emit("var %d" % v) for v in range(nvars)]
+    tops = []
+    for _ in range(2 + rng.below(2)):
+        lo = rng.below(max(1, nvars - 20))
+        hi = min(nvars, lo + 20 + rng.below(nvars - lo - 19)) if nvars - lo > 20 else nvars
+        style = rng.below(3)
+        r = var[hi - 1]
+        for v in range(hi - 2, lo - 1, -1):
+            op = ["and", "or", rng.pick(["and", "or"])][style]
+            x = var[v]
+            if rng.chance(1, 8):
+                x = emit("not %d" % x)
+            r = emit("%s %d %d" % (op, x, r))
+        tops.append(r)
+    tops.append(emit("%s %d %d" % (rng.pick(["and", "or", "xor", "imp"]), tops[0], tops[1])))
+    tops.append(emit("restrict %d %d %d" % (tops[rng.below(len(tops))], rng.below(nvars), rng.below(2))))
+    if rng.chance(1, 3):
+        emit("q reimport %s" % rng.pick(["json", "nodes", "live"]))
+    for t in tops:
+        emit("q models %d 0" % t)
+        if memo:
+            emit("q models %d 1" % t)
+        emit("q paths %d %d" % (t, rng.below(2)))
+        emit("q depth %d" % t)
+        emit("q deps %d" % t)
+    return "PROG " + cfg, lines
+
+
 def gen_prog_sparse(rng, nvars, queries=True, cfg="a1v1"):
     """programs whose diagrams are SPARSE: a selector variable chooses between small terms over different,
     overlapping subsets of the later variables (multiplexer / decision-list shapes), so that the two
